@@ -145,6 +145,18 @@ def _collect(results, mode, cases, kind):
     return evs, org
 
 
+
+def _tlc_retry(ctx, module, cfg, timeout, **kw):
+    """ctx.tlc with a bounded wait and one retry: a TLC JVM that hangs (seen once, right after the initial states of a
+    negative control with several workers) must not stall the check."""
+    try:
+        return ctx.tlc(module, cfg, timeout=timeout, **kw)
+    except vlib.MachineryError as e:
+        if "timeout" not in str(e):
+            raise
+        vlib.log("TLC %s/%s did not finish within %d s, retrying once" % (module, cfg, timeout))
+        return ctx.tlc(module, cfg, timeout=timeout * 3, **kw)
+
 def run(ctx):
     q = ctx.tier == "quick"
     rnd = random.Random(ctx.seed)
@@ -165,8 +177,8 @@ def run(ctx):
             ("SplitterProf", "SplitterProf_gen_quick.cfg" if q else "SplitterProf_gen.cfg"), ("OverlapMC", "OverlapMC_gen.cfg"),
             ("SplitterProf", "SplitterProf_probe.cfg")]
     with ThreadPoolExecutor(max_workers=5) as ex:
-        f1 = [ex.submit(ctx.tlc, m, c, workers=3, timeout=3000, count=False, **kw) for m, c, kw in r1]
-        fg = [ex.submit(ctx.tlc, m, c, workers=1, timeout=3000, count=False, collect=True) for m, c in gens]
+        f1 = [ex.submit(_tlc_retry, ctx, m, c, 300 if q else 3000, workers=1 if kw else 3, count=False, **kw) for m, c, kw in r1]
+        fg = [ex.submit(_tlc_retry, ctx, m, c, 300 if q else 3000, workers=1, count=False, collect=True) for m, c in gens]
         for f, (_, _, kw) in zip(f1, r1):
             r = f.result()
             if not kw:
